@@ -41,6 +41,30 @@ def _worker(arg):
     return blockcheck.run_histories(c, uni, hists, NOW) + (name,)
 
 
+def fork_histories():
+    """two-branch histories whose fork lies *before* a retarget boundary and whose branches both run up to the next
+    boundary (so the first block of the closing period differs between the branches), in several arrival orders"""
+    out = []
+    for f in (0, 1, 2, 3):
+        common = tuple(tuple(('e', 120) for _ in range(i + 1)) for i in range(f))
+        base = common[-1] if common else ()
+        for da, db in ((30, 480), (480, 30), (60, 120)):
+            A = []
+            B = []
+            pa, pb = base, base
+            for i in range(f, 7):
+                pa = pa + (('e', da),)
+                pb = pb + (('e', db),)
+                A.append(pa)
+                B.append(pb)
+            inter = tuple(x for pair in zip(A, B) for x in pair)
+            out.append(common + tuple(A) + tuple(B))          # A complete first: head on A
+            out.append(common + tuple(B) + tuple(A))          # B first
+            out.append(common + inter)                        # interleaved
+            out.append(common + tuple(A) + tuple(B[:-1]))     # B one short of the boundary parent
+    return out
+
+
 def grid_cases():
     tg = {0, 1, refmodel.MAX256}
     for k in range(0, 256):
@@ -158,6 +182,9 @@ def run(ctx):
             random.Random(ctx.seed).shuffle(hists)
         nchunk = max(1, min(len(hists), ctx.ncpu * 4))
         jobs += [(name, hists[i::nchunk], not ctx.quick) for i in range(nchunk)]
+    fh = fork_histories()
+    per_depth['forks-across-a-boundary'] = [len(fh)]
+    jobs += [('F', fh[i::8], not ctx.quick) for i in range(8)]
     ctx.log("histories", per_depth)
     res = ctx.pmap(_worker, jobs)
     ng, gbad = ctx.pmap(_grid_worker, [0, 1])[0]
